@@ -23,6 +23,8 @@ os.chdir(ROOT)
 # The code under verification is /repo's working tree (editable install).  VERIF_REPO points the same
 # machinery at a scratch copy instead (mutation self-test, seeded changes); never used by MANIFEST commands.
 REPO = os.environ.get("VERIF_REPO", "/repo")
+# scratch evaluations (seeded changes, self-test) keep their replay / evidence files out of /verif
+RDIR = os.environ.get("VERIF_REPLAY_DIR", "replays")
 if os.path.realpath(REPO) != "/repo":
     sys.path.insert(0, REPO)
 
@@ -43,7 +45,7 @@ def _prove_one(task):
 
     by_name = {c.name: c for c in dsl.REGISTRY}
     c = next(x for x in dsl.REGISTRY if x.id == cid)
-    pr = Prover(by_name, tier=tier, seed=seed, replay_dir="replays")
+    pr = Prover(by_name, tier=tier, seed=seed, replay_dir=RDIR)
     if shape_k == "native":
         ur = pr.prove(c, only_shape=-1, native=True)
     else:
@@ -88,7 +90,7 @@ def _bounded_one(task):
     from pyvc.bounded import BReport
 
     b = next(x for x in dsl.BOUNDED if x.name == name and x.pid == pid)
-    rep = BReport(pid, name, random.Random(seed), tier, "replays")
+    rep = BReport(pid, name, random.Random(seed), tier, RDIR)
     t0 = time.time()
     try:
         b.fn(rep)
@@ -143,7 +145,7 @@ def main(argv=None):
         # replay files of earlier runs are stale: every run writes the ones it finds
         import shutil
 
-        shutil.rmtree(os.path.join("replays", a.pid), ignore_errors=True)
+        shutil.rmtree(os.path.join(RDIR, a.pid), ignore_errors=True)
 
     try:
         registry, boundeds = load_sidecars()
